@@ -15,3 +15,4 @@ def run(rep, W, ctx):
     # "applies the given snapshot targets": below main(), the config reaches the two classifiers unchanged
     from rules import shared as S
     S.c17_targets(rep, W)
+    S.c12_max(rep, W)      # .. and the measures compared with the targets are the record's own (a count off by one makes target N behave as N-1)
